@@ -462,7 +462,8 @@ func (e *Engine) execReturn(s *ast.ReturnStmt, st *State) *State {
 	fr := e.fr
 	if len(s.Results) > 0 {
 		var vals []Value
-		if len(s.Results) == 1 && len(fr.results) > 1 {
+		_, tuple := e.typeOf(s.Results[0]).(*types.Tuple)
+		if len(s.Results) == 1 && (len(fr.results) > 1 || tuple) {
 			vals = e.evMulti(s.Results[0], st)
 		} else {
 			for _, r := range s.Results {
@@ -470,6 +471,9 @@ func (e *Engine) execReturn(s *ast.ReturnStmt, st *State) *State {
 			}
 		}
 		for i, k := range fr.results {
+			if i >= len(vals) {
+				break
+			}
 			v := e.coerce(vals[i], fr.restyps[i], st)
 			v.Typ = fr.restyps[i]
 			if obj, ok := k.(types.Object); ok {
